@@ -555,6 +555,15 @@ class World:
         if kind == "pre_fix_objective":
             from cobra.util.solver import fix_objective_as_constraint
 
+            # a fraction below 1 only loosens the pin when the optimum has the sign of the direction (the stated domain of
+            # fraction_of_optimum); otherwise the pinned model is infeasible and "the same result twice" is not defined
+            base = fba.solve_ref(self.ref)
+            ok = base is not None and base[0].status == "optimal" and (
+                op.get("fraction", 0.9) == 1.0 or (self.ref.direction == "max" and base[0].value >= 0)
+                or (self.ref.direction == "min" and base[0].value <= 0))
+            if not ok:
+                self.stats["withheld:pin_outside_fraction_domain"] += 1
+                return
             try:
                 fix_objective_as_constraint(self.model, fraction=op.get("fraction", 0.9))
                 self.stats["probe:preexisting_fixed_objective_constraint"] += 1
@@ -1036,7 +1045,7 @@ def _gen_call(rng, W, prop):
                 "essential_genes", "essential_reactions"],
         "C14": ["fva", "fva", "blocked", "single_gene_deletion", "double_gene_deletion", "single_reaction_deletion",
                 "double_reaction_deletion", "essential_genes", "essential_reactions", "sample"],
-        "C13": list(ANALYSES),
+        "C13": list(ANALYSES) + ["gapfill", "gapfill", "production_envelope"],  # the two with the most argument-dependent paths
     }[prop]
     kind = rng.choice(pools)
     a = {}
@@ -1119,7 +1128,15 @@ def _gen_call(rng, W, prop):
         if internal and rng.random() < 0.6:
             # the universal model offers a detour around one internal reaction through a metabolite the model does not know;
             # that reaction is shut in the model first, so that the detour is what gapfilling proposes
-            R = rng.choice(internal)
+            # preferably a reaction the objective cannot do without
+            base = exact_opt(ref)
+            need = []
+            if base is not None and base.status == "optimal" and abs(float(base.value)) >= 0.1 and len(internal) <= 8:
+                for r0 in internal:
+                    ko = exact_opt(ref, {r0})
+                    if ko is not None and (ko.status != "optimal" or abs(float(ko.value)) < 0.01):
+                        need.append(r0)
+            R = rng.choice(need or internal)
             subs = [[m, c] for m, c in sorted(ref.rxns[R]["mets"].items()) if c < 0]
             prods = [[m, c] for m, c in sorted(ref.rxns[R]["mets"].items()) if c > 0]
             if subs and prods and "Unew" not in ref.mets:
